@@ -69,6 +69,8 @@ def apply(ctx, W):
         ("res is Ok ==> definitions_registered(&final(self).type_registry, *path, module.definitions@, module.definitions@.len() as int)", ("C14",), "definitions-registered"),
         ("res is Ok ==> extern_types_registered(&final(self).type_registry, *path, module.extern_types@, module.extern_types@.len() as int)", ("C14", "C02"), "extern-types-registered"),
         ("res is Ok ==> registry_extends(&old(self).type_registry, &final(self).type_registry)", ("C14", "C19"), "no-silent-overwrite"),
+        # the precondition of SemanticState::build (established by SemanticState::new) survives every add_module, failed or not
+        ("reg_wf(&old(self).type_registry) ==> reg_wf(&final(self).type_registry)", ("C10", "C01", "C02"), "add-module-keeps-reg-wf"),
         ("""res is Ok ==> forall|j: int| 0 <= j < module.definitions@.len() ==>
                 final(self).modules@[*path].definition_paths@.contains(#[trigger] spec_join(*path, module.definitions@[j].name.0@))""", ("C14",), "definition-paths"),
         ("res is Ok ==> impl_blocks_kept(*path, module.impls@, final(self).modules@[*path].impls@)", ("C05", "C10", "C14"), "impl-blocks-kept"),
